@@ -24,7 +24,7 @@
    or half-closes it (handleStreamClose); a close element half-closes the stream (handleStreamMessage).  [deliv] is the order in which the items reach their
    streams; the reader of stream s sees [filter s deliv] in this order, DEnd = ErrEndOfStream mark. *)
 From Coq Require Import List ZArith Lia Bool Arith.
-From Shm Require Import Gen.Consts Model.Wakeup.
+From Shm Require Import Gen.Consts Gen.SwitchC07 Model.Wakeup.
 Import ListNotations.
 Open Scope nat_scope.
 
@@ -82,8 +82,10 @@ Definition mloc c td n fb cl : mlocal := {| mpc_ := c; mtodo := td; nxt := n; in
 Fixpoint remove_one (i : nat) (l : list nat) : list nat :=
   match l with [] => [] | x :: r => if Nat.eqb x i then r else x :: remove_one i r end.
 
-(* one step of the writer of stream i *)
-Definition mpstep (i : nat) (s : mst) : mst :=
+(* one step of the writer of stream i.  [sticky] mirrors how Stream.Flush maintains inFallbackState:
+   true  (the code that exists, Gen/SwitchC07.v):  if !sendBuf.isFromShareMemory() { inFallbackState = true }
+   false (kept to show what the order theorem depends on): inFallbackState = !sendBuf.isFromShareMemory() *)
+Definition mpstep_g (sticky : bool) (i : nat) (s : mst) : mst :=
   match nth_error (mprods s) i with
   | None => s
   | Some p =>
@@ -93,7 +95,7 @@ Definition mpstep (i : nat) (s : mst) : mst :=
       | [] => s
       | OFlush shmok qfull :: _ =>
         if closed p then msetp i (mfin p) s                                    (* ErrStreamClosed *)
-        else if infb p || negb shmok then                                      (* writeFallback *)
+        else if (sticky && infb p) || negb shmok then                          (* writeFallback *)
           msetp i (mloc MWait (mtodo p) (S (nxt p)) true false) (put_s (i, DData (nxt p)) i s)
         else if qfull then msetp i (mloc MIdle (tl (mtodo p)) (S (nxt p)) false false) s   (* ErrQueueFull *)
         else msetp i (mloc MMark (mtodo p) (S (nxt p)) false false) (put_q (i, DData (nxt p)) s)
@@ -111,6 +113,8 @@ Definition mpstep (i : nat) (s : mst) : mst :=
     | MWait => if existsb (Nat.eqb i) (acks s) then msetp i (mfin p) (mset_acks (remove_one i (acks s)) s) else s
     end
   end.
+
+Definition mpstep (i : nat) (s : mst) : mst := mpstep_g sw_fallback_sticky i s.
 
 (* the receiving event loop *)
 Definition mcstep (s : mst) : mst :=
@@ -151,13 +155,17 @@ Definition msstep (s : mst) : mst :=
   | LRel o => mset_sl LIdle (mset_acks (match o with Some i => i :: acks s | None => acks s end) (mset_writing false s))
   end.
 
-Definition mstep (s : mst) (w : who) : mst :=
-  match w with WProd i => mpstep i s | WCons => mcstep s | WSend => msstep s end.
+Definition mstep_g (sticky : bool) (s : mst) (w : who) : mst :=
+  match w with WProd i => mpstep_g sticky i s | WCons => mcstep s | WSend => msstep s end.
+Definition mrun_g (sticky : bool) (sched : list who) (s : mst) : mst := fold_left (mstep_g sticky) sched s.
+
+(* the code that exists *)
+Definition mstep (s : mst) (w : who) : mst := mstep_g sw_fallback_sticky s w.
 
 Definition minit (progs : list (list mop)) : mst :=
   mmk [] false [] false false [] [] (map (fun t => mloc MIdle t 0 false false) progs) KIdle LIdle [] [].
 
-Definition mrun (sched : list who) (s : mst) : mst := fold_left mstep sched s.
+Definition mrun (sched : list who) (s : mst) : mst := mrun_g sw_fallback_sticky sched s.
 
 (* ---------- observation functions used by the statements ---------- *)
 Definition ditem_eqb (a b : ditem) : bool :=
